@@ -917,6 +917,7 @@ def vp_div_(a, b):
 # ------------------------------------------------------------------------------------------
 # loop fuel
 
+SAMPLES = []  # a harness may describe explored cases here (shown as samples in the evidence file)
 EXTRA = {}  # a harness may leave details of the failing path here (e.g. the schedule); stored with the model
 
 FUEL = [0, 10**9]
